@@ -4,7 +4,7 @@
    ThreadSanitizer by the check); that the footprint of each per-cell loop body really is its own cell is read off the
    code and validated by bit-exact runs with 1..16 threads: see DESIGN.md. *)
 From Coq Require Import Arith Bool List NArith Permutation.
-From SC Require Import Population PopulationSpec PopulationProofs Schedule ScheduleProofs.
+From SC Require Import Population PopulationSpec PopulationProofs Schedule ScheduleProofs Facts_gen.
 Import ListNotations.
 
 (* two schedules that apply the same steps to every component in the same per-component order give the same state *)
@@ -56,3 +56,11 @@ Theorem deferred_appends_never_dangle : forall es s, deferred es = true -> v_sta
   (forall p, In p (v_pending s) -> snd p = v_gen s) -> v_stale (vrun es s) = false.
 Proof. exact deferred_safe. Qed.
 Print Assumptions deferred_appends_never_dangle.
+
+(* THE TIE TO THE SOURCE of the handler model: Facts_gen.v (regenerated from include/utils.hpp on every run) records the shape of
+   parallel_exception_handler that `handler` of Schedule.v assumes: one shared exception slot declared before the parallel region
+   (not private, lastprivate or a reduction), every task inside `try` with a catch-all that stores the current exception under a
+   critical section, a loop that visits every element with no early exit, and a rethrow after the loop iff a slot was stored. *)
+Theorem exception_handler_has_the_modelled_shape : facts_translation_ok = true /\ handler_shape = (true, true, true, true).
+Proof. split; reflexivity. Qed.
+Print Assumptions exception_handler_has_the_modelled_shape.
